@@ -84,7 +84,9 @@ def apply_unified(diff_text: str, before_text: str) -> str:
             if tag == " ":
                 if pos >= len(src) or not _same(src[pos], content, pos == len(src) - 1, last_dl):
                     raise PatchError(f"context mismatch at source line {pos + 1}: {content[:60]!r}")
-                out.append(src[pos])
+                # a last source line without terminator that the diff shows with one: keep the diff's rendering, so
+                # that lines added after it do not get glued to it
+                out.append(content if (content.endswith("\n") and not src[pos].endswith("\n")) else src[pos])
                 pos += 1
                 used_old += 1
                 used_new += 1
